@@ -27,7 +27,13 @@ MANIFEST = {
             "volume), consecutive step counts, time/energy monotone, 0 < step <= physics limit "
             "(0 only at rest), step >= |Δx| up to rounding, volume at each point contains the "
             "point (analytic point location for the two test geometries), volume changes only "
-            "with the boundary action, status only moves forward.",
+            "with the boundary action, status only moves forward.  Urban MSC (hand-made tables, "
+            "three step-limit algorithms) runs in the real along-step: the step-limit selection "
+            "(UrbanMscSafetyStepLimit / UrbanMscMinimalStepLimit constructor + operator()) is "
+            "modelled and replayed bit-exactly from recorded inputs incl. the replayed Gaussian "
+            "draw; theorems mscStepLimit_le_maxStep and msc_displacement_le_cap; oracle: true path "
+            "<= pre-step physics limit, geom <= true path, lateral displacement <= (1-safety_tol)*"
+            "safety, failed interaction => physics-failure action and no second interaction.",
     "design_ref": "DESIGN.md §6 C05",
     "note": "Category other: frame conditions of the REAL inter-step actions are checked on "
             "traces by the harness, not proved; MSC gates are modelled but no MSC / field "
@@ -231,6 +237,26 @@ def msc_scenarios(rng, quick):
                            "lambda_limit": [0.1, 1e-3][j % 2]}}
             out.append(("mock", prim, kw))
         k += 1
+    # minimal algorithm, physics step only slightly above the cached MSC limit (set on a boundary
+    # to range_factor * max(range, mfp)): the Gaussian draw regularly lands above the maximum
+    # step and must be clamped back to it
+    for j, (rf, ls, xs) in enumerate(((0.2, 0.1, 1.0), (0.19, 0.01, 10.0), (0.2, 0.1, 10.0))
+                                     if quick else
+                                     ((0.2, 0.1, 1.0), (0.19, 0.01, 10.0), (0.2, 0.1, 10.0),
+                                      (0.17, 0.1, 1.0), (0.2, 1.0, 10.0), (0.18, 0.01, 1.0))):
+        prim = []
+        for i in range(6):
+            name = "electron" if (i + j) % 2 else "positron"
+            e = [1.0, 2.5, 4.0, 6.0, 8.0, 9.5][i] * (1 - 0.05 * rng.unit())
+            r0 = [0.999, 0.99, 2.999, 0.9, 2.99, 0.5][(i + j) % 6]
+            d = [1.0, 0.0, 0.0] if i % 3 else c01.unit_dir(rng)
+            prim.append((name, e, [r0, 0.0, 0.0], d, i % 2, 6 if quick else 10))
+        kw = {"slots": 16, "along": ["vlinear", "vfluct", "vlinear"][j % 3], "interactor": 1,
+              "msc": 1, "mscalg": "minimal", "mscxs": xs, "lossscale": ls, "xsscale": 0.01,
+              "maxsteps": 600 if quick else 1500, "maxevents": 4, "seed": rng.below(1 << 30),
+              "opts": {"lowest_electron_energy": 1e-4, "range_factor": rf,
+                       "max_step_over_range": 0.2, "min_range": [0.1, 0.05][j % 2]}}
+        out.append(("mock", prim, kw))
     return out
 
 
@@ -359,6 +385,12 @@ def oracle(log, problem):
                 if M["phys"] < M["r1"][3]:
                     n["msc-phys-step-below-limit-min:" + alg] = n.get(
                         "msc-phys-step-below-limit-min:" + alg, 0) + 1
+                # Gaussian draw above the maximum step, clamped back to it (the population in
+                # which a missing upper clamp would exceed the physics limit)
+                lim_fin = M["r1"][1] if M["alg"] == 0 else None
+                if M["alg"] == 0 and M["true"] == M["phys"] and M["phys"] > lim_fin:
+                    n["msc-clamped-at-max-step:" + alg] = n.get(
+                        "msc-clamped-at-max-step:" + alg, 0) + 1
                 if M["true"] != M["phys"] and M["true"] != M["r1"][3]:
                     n["msc-sampled:" + alg] = n.get("msc-sampled:" + alg, 0) + 1
                 if M["onb"]:
@@ -532,7 +564,8 @@ def run(ctx):
     need = (["msc:" + a for a in MSC_ALGS] + ["msc-limiter:" + a for a in MSC_ALGS]
             + ["msc-sampled:" + a for a in MSC_ALGS] + ["msc-on-boundary:" + a for a in MSC_ALGS]
             + ["msc-phys-step-below-limit-min:safety", "msc-phys-step-below-limit-min:safety_plus",
-               "msc-displaced", "msc-safety-capped", "failed-interactions"])
+               "msc-displaced", "msc-safety-capped", "msc-clamped-at-max-step:minimal",
+               "failed-interactions"])
     missing = [k for k in need if not msc_cnt.get(k)]
     if missing:
         ctx.violation("coverage-msc", "the MSC / failed-interaction scenarios no longer reach: "
@@ -557,8 +590,12 @@ def run(ctx):
         "actions write nothing else is checked on traces (pre(k+1) == post(k) bitwise per track)",
         "hypotheses: interaction_mfp > 0 and xs >= 0 (CELER_EXPECT), unit direction vectors, "
         "vacancies are inactive slots (C02)",
-        "NOT covered: field propagators, Urban MSC (gates modelled only), looping-track logic "
-        "beyond the branch model, real EM data — not buildable without Geant4 data",
+        "Urban MSC uses hand-made cross-section tables (scaled xs constant*mild log slope per "
+        "material), not Geant4 data; MscStepToGeo/FromGeo path conversions and the angular "
+        "sampling are exercised but not modelled (C14); calc_limit_min enters as a recorded input",
+        "NOT covered: field propagators, looping-track logic beyond the branch model, real EM "
+        "data — not buildable without Geant4 data; distance_to_boundary MSC algorithm (not "
+        "implemented in the code: falls through to the safety algorithm)",
     ]
     ctx.coverage.update({
         "evaluations": st["steps"] + st["ops"], "distinct_nontrivial": len(distinct),
